@@ -15,6 +15,10 @@ pub enum Fault {
     Garbage { file: usize, len: u64, seed: u64 },
     /// replace file `file` by a copy of file `other`
     SwapWith { file: usize, other: usize },
+    /// XOR one byte inside a CRC-protected block and store a fresh, valid CRC-32C for the block
+    /// (`block_start .. block_start + block_len` is the data, the 4 CRC bytes follow): damage a
+    /// block checksum cannot see, only the pack's global hash can
+    FlipFix { file: usize, pos: u64, mask: u8, block_start: u64, block_len: u64 },
     Multi(Vec<Fault>),
 }
 
@@ -30,6 +34,7 @@ impl Fault {
             Fault::Empty { .. } => "empty",
             Fault::Garbage { .. } => "garbage",
             Fault::SwapWith { .. } => "swap",
+            Fault::FlipFix { .. } => "flip-with-fresh-block-crc",
             Fault::Multi(_) => "multi",
         }
     }
@@ -45,6 +50,7 @@ impl Fault {
             Fault::Empty { file } => format!("empty:{file}"),
             Fault::Garbage { file, len, seed } => format!("garbage:{file}:{len}:{seed}"),
             Fault::SwapWith { file, other } => format!("swap:{file}:{other}"),
+            Fault::FlipFix { file, pos, mask, block_start, block_len } => format!("flipfix:{file}:{pos}:{mask}:{block_start}:{block_len}"),
             Fault::Multi(v) => format!(
                 "multi:{}",
                 v.iter().map(|f| f.encode()).collect::<Vec<_>>().join("+")
@@ -99,6 +105,13 @@ impl Fault {
                 len: n(2)?,
                 seed: n(3)?,
             },
+            "flipfix" => Fault::FlipFix {
+                file: n(1)? as usize,
+                pos: n(2)?,
+                mask: n(3)? as u8,
+                block_start: n(4)?,
+                block_len: n(5)?,
+            },
             "swap" => Fault::SwapWith {
                 file: n(1)? as usize,
                 other: n(2)? as usize,
@@ -118,7 +131,8 @@ impl Fault {
             | Fault::Prepend { file, .. }
             | Fault::Empty { file }
             | Fault::Garbage { file, .. }
-            | Fault::SwapWith { file, .. } => vec![*file],
+            | Fault::SwapWith { file, .. }
+            | Fault::FlipFix { file, .. } => vec![*file],
             Fault::Multi(v) => {
                 let mut f: Vec<usize> = v.iter().flat_map(|x| x.files()).collect();
                 f.sort();
@@ -191,6 +205,17 @@ impl Fault {
                 files[*file] = rng.bytes(*len as usize);
                 true
             }
+            Fault::FlipFix { file, pos, mask, block_start, block_len } => {
+                let f = &mut files[*file];
+                let (p, a, b) = (*pos as usize, *block_start as usize, (*block_start + *block_len) as usize);
+                if *mask == 0 || p < a || p >= b || b + 4 > f.len() {
+                    return false;
+                }
+                f[p] ^= mask;
+                let crc = crc32c_jubako(&f[a..b]);
+                f[b..b + 4].copy_from_slice(&crc.to_be_bytes());
+                true
+            }
             Fault::SwapWith { file, other } => {
                 let o = files[*other].clone();
                 let changed = files[*file] != o;
@@ -206,4 +231,18 @@ impl Fault {
             }
         }
     }
+}
+
+/// CRC-32C as jubako stores it: polynomial 0x1EDC6F41, initial value 0xFFFFFFFF, not reflected,
+/// no final xor, stored big-endian (re-implemented here so that crafted faults do not depend on
+/// the code under test).
+pub fn crc32c_jubako(data: &[u8]) -> u32 {
+    let mut crc: u32 = 0xFFFF_FFFF;
+    for byte in data {
+        crc ^= (*byte as u32) << 24;
+        for _ in 0..8 {
+            crc = if crc & 0x8000_0000 != 0 { (crc << 1) ^ 0x1EDC_6F41 } else { crc << 1 };
+        }
+    }
+    crc
 }
